@@ -85,6 +85,12 @@ class CFor:
         self.init, self.cond, self.step, self.body, self.line = init, cond, step, body, line
 
 
+class CWhile:
+    """only between the parser and sa.cptr, which turns counted pointer walks into for loops"""
+    def __init__(self, cond, body, line):
+        self.cond, self.body, self.line = cond, body, line
+
+
 class CIf:
     def __init__(self, cond, body, orelse, line):
         self.cond, self.body, self.orelse, self.line = cond, body, orelse, line
@@ -113,7 +119,7 @@ class CFunc:
         def rec(stmts):
             for s in stmts:
                 yield s
-                if isinstance(s, CFor):
+                if isinstance(s, (CFor, CWhile)):
                     yield from rec(s.body)
                 elif isinstance(s, CIf):
                     yield from rec(s.body)
@@ -231,14 +237,40 @@ class Parser:
         if tok.val == 'for':
             self.next()
             self.expect('(')
-            init = self.simple() if self.peek().val != ';' else None
+            inits = self.simple_list() if self.peek().val != ';' else []
             self.expect(';')
             cond = self.expr() if self.peek().val != ';' else None
             self.expect(';')
-            step = self.simple() if self.peek().val != ')' else None
+            steps = self.simple_list() if self.peek().val != ')' else []
             self.expect(')')
             body = self.body_or_stmt()
-            return [CFor(init, cond, step, body, line)]
+            if len(inits) <= 1 and len(steps) <= 1:
+                return [CFor(inits[0] if inits else None, cond, steps[0] if steps else None, body, line)]
+            # for (i = 0, p = q; i < n; i++, p += m) body   ==   p = q; for (i = 0; i < n; i++) { body; p += m; }
+            # (the loop's own variable is the one the condition tests; valid when the body has no `continue`)
+            cv = unparse(cond.left) if isinstance(cond, ast.Compare) else None
+            own_i = [x for x in inits if isinstance(x, CAssign) and unparse(x.target) == cv]
+            own_s = [x for x in steps if isinstance(x, CAssign) and unparse(x.target) == cv]
+
+            def has_continue(stmts):
+                for st in stmts:
+                    if isinstance(st, CJump) and st.kind == 'continue':
+                        return True
+                    if isinstance(st, CIf) and (has_continue(st.body) or has_continue(st.orelse)):
+                        return True
+                return False
+            if len(own_i) != 1 or len(own_s) != 1 or has_continue(body):
+                raise AnalysisError('%s:%d: for statement with several initialisers/steps is outside the supported C subset' % (self.rel, line))
+            pre = [x for x in inits if x is not own_i[0]]
+            tail = [x for x in steps if x is not own_s[0]]
+            return pre + [CFor(own_i[0], cond, own_s[0], list(body) + tail, line)]
+        if tok.val == 'while':
+            self.next()
+            self.expect('(')
+            cond = self.expr()
+            self.expect(')')
+            body = self.body_or_stmt()
+            return [CWhile(cond, body, line)]
         if tok.val == 'if':
             self.next()
             self.expect('(')
@@ -258,7 +290,7 @@ class Parser:
             self.next()
             self.expect(';')
             return [CJump(tok.val, line)]
-        if tok.val in ('while', 'do', 'switch', 'goto', 'struct', 'typedef'):
+        if tok.val in ('do', 'switch', 'goto', 'struct', 'typedef'):
             raise AnalysisError('%s:%d: construct %r is outside the supported C subset' % (self.rel, line, tok.val))
         s = self.simple()
         self.expect(';')
@@ -295,6 +327,12 @@ class Parser:
             self.expect(',')
         return out
 
+    def simple_list(self):
+        out = [self.simple()]
+        while self.accept(','):
+            out.append(self.simple())
+        return out
+
     def simple(self):
         """assignment, compound assignment, ++/--, or expression statement"""
         line = self.peek().line
@@ -304,6 +342,9 @@ class Parser:
             return CAssign(tgt, '+=' if op == '++' else '-=', ast.Constant(value=1), line)
         e = self.expr()
         tok = self.peek()
+        if isinstance(e, ast.Call) and isinstance(e.func, ast.Name) and e.func.id in ('postinc', 'postdec') and tok.val not in ('=', '+=', '-=', '*=', '/='):
+            # i++ as a statement
+            return CAssign(e.args[0], '+=' if e.func.id == 'postinc' else '-=', ast.Constant(value=1), line)
         if tok.val in ('=', '+=', '-=', '*=', '/='):
             self.next()
             v = self.expr()
@@ -407,6 +448,9 @@ class Parser:
                             break
                         self.expect(',')
                 e = ast.Call(func=e, args=args, keywords=[])
+            elif self.peek().val in ('++', '--'):
+                op = self.next().val
+                e = ast.Call(func=ast.Name(id='postinc' if op == '++' else 'postdec', ctx=ast.Load()), args=[e], keywords=[])
             else:
                 return e
 
@@ -458,11 +502,25 @@ class CProgram:
                 continue
             self.units[rel] = pr
             for k, f in pr.funcs.items():
-                if not os.environ.get('VERIF_NO_ALPHA'):
-                    c_alpha_normalise(f)
                 self.funcs[k] = f
             self.protos.update(pr.protos)
             self.globals.update(pr.globals)
+        if not os.environ.get('VERIF_NO_ALPHA'):
+            # pointer walks / carved workspaces / new file-local helpers written back to the array-and-index form (sa.cptr), then
+            # the renaming of locals
+            from . import cptr
+            table = _c_table()
+            rec_funcs = set(table.get('__functions__') or [k for k in table if not k.startswith('__')])
+            for k, f in list(self.funcs.items()):
+                if k not in rec_funcs and table.get('__functions__'):
+                    continue           # a helper the confirmed tree does not have: expanded at its call sites
+                try:
+                    cptr.normalise(f, self.funcs, rec_funcs, table.get(k))
+                except cptr.Unsupported as e:
+                    f.ptr_error = str(e)
+                except AnalysisError as e:
+                    f.ptr_error = str(e)
+                c_alpha_normalise(f)
 
     def func(self, name):
         f = self.funcs.get(name)
@@ -471,7 +529,7 @@ class CProgram:
             if broken:
                 raise AnalysisError('C function %s not available: %s' % (name, '; '.join(sorted(broken.values()))[:200]))
             raise AnalysisError('anchor vanished: C function %s' % name)
-        why = unsupported_pointer_use(f)
+        why = getattr(f, 'ptr_error', None) or unsupported_pointer_use(f)
         if why:
             raise AnalysisError('C function %s is outside the modelled C subset: %s' % (name, why))
         return f
@@ -754,13 +812,17 @@ def c_integer_abs_on_double(f):
     return out
 
 
-def c_alpha_normalise(f):
+def _c_table():
     global _C_TABLE
     if _C_TABLE is None:
         import json
         tp = os.path.join(os.path.dirname(os.path.abspath(__file__)), 'alpha_names_c.json')
         _C_TABLE = json.load(open(tp)) if os.path.isfile(tp) else {}
-    rec = _C_TABLE.get(f.name)
+    return _C_TABLE
+
+
+def c_alpha_normalise(f):
+    rec = _c_table().get(f.name)
     if not rec:
         return 0
     from .alpha import pairing
